@@ -139,6 +139,8 @@ def run(tier):
                    '%d of 3 corrupted run observations rejected: %s' % (len(rs['rejects']), [x['clause'] for x in rs['rejects']]))
     elif not r['rejects']:
         raise vlib.MachineryError('no accepted run observation available for the binding self-test')
+    else:   # TLC already rejected observations of this tree and no accepted run is left to corrupt
+        c.extra['binding_selftest_skipped'] = 'only %d accepted run observations (3 needed), %d observations rejected' % (len(good_runs), len(r['rejects']))
     if len(good_plans) == 2:
         def mutp(evs):
             evs[0]['jobs'] = evs[0]['jobs'][:-1] if evs[0]['jobs'][-1] != ['*'] else evs[0]['jobs'][1:]
